@@ -192,6 +192,15 @@ Section Proofs2.
       + injection H as H1; subst ok. destruct (IHt eq_refl) as [Hb Hr]. split; [assumption|]. rewrite Hr. reflexivity.
   Qed.
 
+  (* a snapshot file whose name is not the hash of its contents is always reported *)
+  Lemma snap_name_reported fuel :
+    st_snap_names_ok st = false -> check B hash blen parse st fuel <> Some [].
+  Proof.
+    intros Hs H. unfold check in H. destruct (negb (st_meta_ok st)); [discriminate|].
+    destruct (check_trees B blen parse st fuel) as [[et used]|]; [|discriminate].
+    rewrite Hs in H. simpl in H. discriminate.
+  Qed.
+
   (* collision-freedom turns "hashes to its id" into "is the content that was stored under the id" *)
   Lemma hash_determines_content :
     (forall b b', hash b = hash b' -> b = b') ->
